@@ -530,9 +530,25 @@ def _uniq(f):
                 for x in walk(e))
             if ok:
                 INLINE[n.get("id")] = e
+        # const-qualified scalar temporaries whose initialiser is free of calls and assignments (table loads included):
+        # `const double x = mesh_x[...]`, `const int node_a = edge_i[e]`, `const bool inside = (a && b)`
+        if n.get("kind") == "VarDecl" and kids(n) and n.get("id") not in assigned and n.get("id") not in INLINE and \
+                n.get("storageClass") != "static" and \
+                n.get("type", {}).get("qualType") in ("const int", "const double", "const bool", "const size_t",
+                                                      "const unsigned int", "const float", "const long"):
+            e = strip(kids(n)[-1])
+            bad = any(x.get("kind") in ("CallExpr", "CXXMemberCallExpr", "CompoundAssignOperator", "CXXConstructExpr",
+                                        "CXXTemporaryObjectExpr", "CXXNewExpr") or
+                      (x.get("kind") == "BinaryOperator" and x.get("opcode") == "=") or
+                      (x.get("kind") == "UnaryOperator" and x.get("opcode") in ("++", "--")) or
+                      (x.get("kind") == "CXXOperatorCallExpr" and name_of(kids(x)[0]) != "operator[]")
+                      for x in walk(e))
+            if not bad:
+                CONST_INLINE[n.get("id")] = e
 
 
 INLINE = {}
+CONST_INLINE = {}
 
 
 def uname(n):
